@@ -93,7 +93,10 @@ def show_toks(enc):
 _PPCI_KIND = {"ID": "id", "NUMBER": "num", "FLOAT": "num", "STRING": "str", "CHAR": "chr"}
 
 
-def ppci_observe(text, limit=4.0):
+MAX_OUTPUT_TOKENS = 5000    # a unit has <= 60 tokens; a pre-processor that never stops producing is cut off
+
+
+def ppci_observe(text, limit=10.0):
     """Run ppci's pre-processor on the text; observation = kinds and spellings of the tokens it
     yields (white-space / line markers dropped), or the exception class."""
     from ppci.lang.c import CPreProcessor, COptions
@@ -107,6 +110,8 @@ def ppci_observe(text, limit=4.0):
             if isinstance(t, LineInfo) or t.typ in ("WS", "BOL"):
                 continue
             toks.append((_PPCI_KIND.get(t.typ, "punct"), t.val))
+            if len(toks) > MAX_OUTPUT_TOKENS:
+                raise OverflowError("too many tokens")
         return toks
 
     try:
@@ -128,7 +133,7 @@ def ppci_observe(text, limit=4.0):
         return failed_obs("Unencodable" + type(e).__name__)
 
 
-def ppci_text_observe(text, limit=4.0):
+def ppci_text_observe(text, limit=10.0):
     """Same unit through ppci.api.preprocess (printed text), re-lexed with the tokenizer."""
     from ppci.api import preprocess
     from . import watchdog
